@@ -208,6 +208,10 @@ package types
 // engine's reach; a bounded stand-in runs the real functions under a fixed key on 65,536 ids spread over the top byte
 // (which holds the sign bit) and a byte pattern below it, in both directions.
 //@ bounded [C20] uid_database_form_roundtrip: hi int in 0..255, lo int in 0..255 :: func() bool { var ug UidGenerator; if ug.Init(1, []byte("0123456789abcdef")) != nil { return false }; w := uint64(hi)<<56 | uint64(lo)*0x0001010101010101; return ug.EncodeInt64(ug.DecodeUid(Uid(w))) == Uid(w) && ug.DecodeUid(ug.EncodeInt64(int64(w))) == int64(w) }()
+// C20: the base32 form: what String32 prints, ParseUid32 reads back; text that is not the canonical form of an id -
+// another length, trailing bits set in the last character - is 'no such id'. The codec is the standard library's;
+// bounded stand-in on 65,536 ids (top byte x a byte pattern), each with three non-canonical variants.
+//@ bounded [C20] uid_base32_roundtrip: hi int in 0..255, lo int in 0..255 :: func() bool { u := Uid(uint64(hi)<<56 | uint64(lo)*0x0001010101010101); s := u.String32(); if u == ZeroUid { return ParseUid32(s) == ZeroUid || ParseUid32(s) == u }; last := s[len(s)-1]; alt := byte('b'); if last == 'b' || last == 'B' { alt = 'c' }; return ParseUid32(s) == u && ParseUid32(s+"aaa") == ZeroUid && ParseUid32(s[:len(s)-1]) == ZeroUid && (ParseUid32(s[:len(s)-1]+string(alt)) == ZeroUid || Uid(ParseUid32(s[:len(s)-1]+string(alt))).String32() == s[:len(s)-1]+string(alt)) }()
 //@ bounded [C05] delta_roundtrip: o AccessMode in 0..255, n AccessMode in 0..255 :: func() bool { m := o; if err := m.ApplyDelta(o.Delta(n)); err != nil { return false }; return m == n }()
 //@ bounded [C05] mutation_roundtrip: o AccessMode in 0..255, n AccessMode in 0..255 :: func() bool { m := o; d := o.Delta(n); if o == 0 || d == "" { d = n.String() }; if err := m.ApplyMutation(d); err != nil { return false }; return m == n }()
 
